@@ -100,6 +100,9 @@ def c10c(tree, ob):
     else:
         ob.site(AGENT, loop, 'routes consulted in stored order')
     breaks = [n for n in walk_local(loop) if isinstance(n, ast.Break)]
+    if not breaks:
+        ob.violate(AGENT, fv.qual, 'for item in self._config.rx_route_table: (no break)', 'the route search does not stop at the first match: the last matching route wins', loop)
+        return
     brk = one(breaks, 'break in the route loop', ob)
     m = pm('$i.eid_pattern.match($e)', fv.value_at(ast.parse('match', mode='eval').body, brk))
     if not fv.has(brk, 'match is None', False):
